@@ -895,6 +895,20 @@ def rule_precision(ctx):
                         bad.append(f"`{fmt_term(f.term(i, inline=False))[:60]}` has type {t['s']} (line {nd['l']})")
             obs.append(Ob('PRECISION', f, 0, 'all floating arithmetic and casts of the segment geometry are long double',
                           f"{n} floating operations, all long double" if not bad else bad[0], OK if not bad else VIOLATED, arm=f.name))
+    # signed shift used as a division: `x >> 1` rounds toward minus infinity where `x / 2` truncates toward zero; for a possibly
+    # negative operand (here: a rounding term multiplied by +-1) the intercept is off by up to one position
+    for tn in (CS + 'get_intersection', CS + 'get_floating_point_segment', CS + 'get_slope_range'):
+        for f in ctx.fns(tn, ctx.units):
+            for i in f.all_ids():
+                nd = f.n(i)
+                if nd['c'] == 'BinaryOperator' and nd['op'] == '>>' and reachable(f, i):
+                    lt = f.unit.type(f.n(nd['ch'][0]).get('t', 0)) or {}
+                    if lt.get('k') == 'int' and lt.get('signed'):
+                        t = f.term(nd['ch'][0], inline=True)
+                        neg = any((x[0] == 'un' and x[1] == '-') or (x[0] == 'op' and len(x) == 4 and x[1] == '-') or (x[0] == 'lit' and isinstance(x[1], int) and x[1] < 0) for x in subterms(t))
+                        obs.append(Ob('PRECISION', f, i, 'signed quantities of the segment geometry are divided, not shifted (a right shift of a negative value rounds toward minus infinity)',
+                                      f"`{fmt_term(f.term(i, inline=False))[:80]}`: right shift of a signed operand" + (' that is negative by construction' if neg else ''),
+                                      VIOLATED if neg else UNDECIDED, arm='signed-shift'))
     # relative abscissa: a long double holds a 64-bit key exactly but has no bit left for the fraction of an abscissa next to
     # it, so `(i_x - first_x) * slope` computed from an absolute i_x is off by up to slope / 2 positions.  Every user of the
     # intersection point must ask for it relative to an origin (the segment's first key).
